@@ -570,8 +570,13 @@ def assemble_item(d, info, src, srcfile_label, log):
                     if lp["kind"] != "for":
                         continue
                     k_ += 1
+                    lbl = ""
                     if lp.get("label"):
-                        raise Undecided(f"{d.path}: for_next desugaring does not support labelled loops")
+                        # `'l: for ..` -> `{ let mut iter__k = EXPR; 'l: loop ..` (the label moves to the new loop)
+                        ml = re.match(rb"('[A-Za-z_]\w*)\s*:\s*", src[lp["start"]:lp["body_open"]])
+                        if not ml:
+                            raise Undecided(f"{d.path}: for_next desugaring: loop label not found")
+                        lbl = ml.group(1).decode() + ": "
                     pat = src[lp["pat"][0]:lp["pat"][1]].decode()
                     expr = src[lp["expr"][0]:lp["expr"][1]].decode()
                     for o2 in d.opts:
@@ -580,11 +585,23 @@ def assemble_item(d, info, src, srcfile_label, log):
                             frm, to = [x.strip() for x in o2[8:-1].split("=>")]
                             if re.fullmatch(ws_tolerant(frm), expr.strip().encode()):
                                 expr = to
-                    add(lp["start"], lp["body_open"], f"{{ let mut iter__{k_} = {expr}; loop ", "DESUGAR_FOR_NEXT")
+                    add(lp["start"], lp["body_open"], f"{{ let mut iter__{k_} = {expr}; {lbl}loop ", "DESUGAR_FOR_NEXT")
                     add(lp["body_open"] + 1, lp["body_open"] + 1,
                         f" match iter__{k_}.next() {{ None => {{ break; }} Some({pat}) => {{", "DESUGAR_FOR_NEXT", prio=-1)
                     add(lp["body_close"], lp["body_close"], " } } ", "DESUGAR_FOR_NEXT")
                     add(lp["body_close"] + 1, lp["body_close"] + 1, " }", "DESUGAR_FOR_NEXT", prio=-2)
+            elif o == "desugar(async)":
+                # `async fn f(..) { .. g(..).await .. }` -> `fn f(..) { .. g(..) .. }` (DESUGAR_ASYNC): the body of an async
+                # function whose awaited callees are prelude models runs to completion like sequential code as far as its
+                # own locals and parameters are concerned (an await point lets *other* tasks run; it does not reorder
+                # this body). What other tasks do to shared state meanwhile is outside the contract and said so where the
+                # option is used.
+                m_ = re.search(rb"\basync\s+(?=(unsafe\s+)?fn\b)", src[start:bo])
+                if not m_:
+                    continue  # not async any more: the text is taken as it is
+                add(start + m_.start(), start + m_.end(), "", "DESUGAR_ASYNC")
+                for m_ in re.finditer(rb"\s*\.\s*await\b", src[bo:bc]):
+                    add(bo + m_.start(), bo + m_.end(), "", "DESUGAR_ASYNC")
             elif o == "desugar(or_guard)":
                 # `A | B if g => body` -> `A if g => body, B if g => body` (Verus: or-pattern with a guard unsupported)
                 if not it.get("or_guards"):
